@@ -284,7 +284,7 @@ def _r6(rep, src, label, full):
         if pname == 'tag_filter':
             return ('hook', 'TF')
         if pname == 'package_iter':
-            return [p_ for p_ in ('pkg-one', 'pkg-three', 'pkg-none') if p_ in GEN]      # (choose_packages_copy raises KeyError for unknown names: outside the property)
+            return [p_ for p_ in ('pkg-one', 'pkg-three', 'pkg-none') if p_ in GEN] + ['pkg-absent']      # a name the collection does not hold is skipped
         if pname == 'package_tag_filter':
             return ('hook', 'PTF')
         return None
